@@ -245,6 +245,18 @@ func kernelsBabybear(c *mon.Ctx) {
 			tr.put(fmt.Sprintf("%s/SIS/log%d-b%d/constructor", N, ps[0], ps[1]), []byte(err.Error()))
 			continue
 		}
+		// the exported key material (the polynomials and their evaluation form): the same in every build, whatever
+		// private tables the vector code derives from it
+		keyDigest := func() []byte {
+			h := sha256.New()
+			for i := range s.A {
+				h.Write(rawBytes(s.A[i]))
+				h.Write(rawBytes(s.Ag[i]))
+			}
+			return h.Sum(nil)
+		}
+		rec(c, fmt.Sprintf("%s/SIS/log%d-b%d/exported-A-and-Ag/after-NewRSis", N, ps[0], ps[1]), keyDigest)
+		defer rec(c, fmt.Sprintf("%s/SIS/log%d-b%d/exported-A-and-Ag/after-hashing", N, ps[0], ps[1]), keyDigest)
 		for _, n := range []int{0, 1, 2, 3, 127, 128, 129, 255, 256, 257, 511, 512, 513, 1000, 1024} {
 			var regs []*efence.Region
 			v := fenced(&regs, rnd(n), n%2 == 0)
